@@ -32,6 +32,9 @@ def load_one(path):
     return mod
 
 def run(rep, tier, seed):
+    # results with million-bit significands (computed precisions) are printed by this harness, not refused:
+    # CPython's int->str digit limit would otherwise surface as a ValueError that is not the interpreter's
+    if hasattr(sys, 'set_int_max_str_digits'): sys.set_int_max_str_digits(0)
     R = Prng(seed, 'C04')
     nprog = 120 if tier == 'quick' else 1500
     ninputs = 5 if tier == 'quick' else 8
@@ -42,7 +45,7 @@ def run(rep, tier, seed):
         # corpus first: hand-written programs pinning documented rules at their edges
         from xform import load_module, arg_kinds, gen_inputs
         corp = load_module(os.path.join(os.path.dirname(__file__), 'corpus', 'c04_corpus.py'), 'fpyverif_C04_corpus')
-        CORPUS_REALS = [1.5, 0.1, 3.0, 2.0, 2.0 ** 20, 2.0 ** -30, 100.0, -7.0, 4.0, 1.0, 5.0, float('inf'), -0.0]
+        CORPUS_REALS = [1.5, 0.1, 3.0, 2.0, 2.0 ** 11, 2.0 ** -30, 100.0, -7.0, 4.0, 1.0, 5.0, float('inf'), -0.0]
         for fn in corp.ALL:
             try:
                 entry, prog = export_program(fn)
